@@ -271,6 +271,14 @@ func (m *toolManager) handleCallTool(
 		errMsg := fmt.Sprintf("tool execution failed (tool: %s): %v", registeredTool.Tool.Name, err)
 		return newJSONRPCErrorResponse(req.ID, ErrCodeInternal, errMsg, nil), nil
 	}
+	if result == nil {
+		errMsg := fmt.Sprintf("tool execution failed (tool: %s): handler returned no result", registeredTool.Tool.Name)
+		return newJSONRPCErrorResponse(req.ID, ErrCodeInternal, errMsg, nil), nil
+	}
+	if result.Content == nil {
+		// "content" is a required array of the tool result: never encode it as null.
+		result.Content = []Content{}
+	}
 
 	return result, nil
 }
